@@ -109,7 +109,14 @@ def run_pass(pid, cfg, pas, tier, replay_rec, deadline_s, workdir):
             res.append({"crash": True, "rc": p.returncode, "cmd": " ".join(cmd), "log": tail,
                         "pass": pas.get("name", "main")})
         else:
-            j = json.load(open(out))
+            try:
+                j = json.load(open(out))
+            except ValueError as e:
+                # the shard wrote an empty / malformed result: its heap was corrupted while it ran library code in-process
+                tail = open(out + ".log").read()[-2000:]
+                res.append({"crash": True, "rc": p.returncode, "cmd": " ".join(cmd), "corrupt": True, "pass": pas.get("name", "main"),
+                            "log": "shard result file is not valid JSON (%s) - heap corruption while executing library code in-process? %s" % (e, tail)})
+                continue
             j["pass"] = pas.get("name", "main")
             res.append(j)
     return res
@@ -185,7 +192,7 @@ def finalize(pid, cfg, tier, seed, results, wall, replay_rec=None, extra_cov=Non
         rc = 2
         # A shard killed by a signal / sanitizer while running library code in-process: the code under test corrupted
         # memory or aborted (never happens on a tree where the property holds; harness self-check failures use exit codes 3..5).
-        fatal = [c for c in crashes if (c["rc"] is not None and c["rc"] < 0) or "Sanitizer" in c["log"] or "runtime error:" in c["log"]]
+        fatal = [c for c in crashes if (c["rc"] is not None and c["rc"] < 0) or c.get("corrupt") or "Sanitizer" in c["log"] or "runtime error:" in c["log"]]
         if fatal and replay_rec is None:
             rdir0 = os.path.join(os.environ.get("VERIF_REPLAY_DIR") or os.path.join(VERIF, "replays"), pid)
             os.makedirs(rdir0, exist_ok=True)
